@@ -4,7 +4,7 @@ import ast
 from ..program import AnalysisError, U, own_nodes, walk_no_nested
 from ..dataflow import ReachingDefs, defs_of_node
 from .common import (match_exact, guard_atom_sets, path_atom_sets, unmatched, need, guards_of, calls_to, ext_calls, all_paths_pass, succs, normal_succs, path_conditions,
-                     is_param, arg_of, stores_in_package)
+                     is_param, arg_of, stores_in_package, cond_forms)
 from .C04 import _paths_avoiding
 
 PROPERTY = 'C13'
@@ -164,6 +164,25 @@ def closes(R):
     R.ob('C13.closes', 'descriptor closed whenever a socket is present', not bad,
          '_close_socket() can return without calling close() although a socket is present: %s' % bad[:1], func=q,
          node=None, construct='_close_socket skip path %s' % bad[:1])
+    # ... also when an operation on the socket that precedes close() fails (shutdown() on a connection the peer has
+    # reset raises ENOTCONN; a TLS unwrap() fails when the peer is gone): socket-error model, exception edges followed
+    gf = R.cfg(q, fault='oserror')
+    clf = [n for (n, _) in ext_calls(R, gf, {'socket.close'})]
+    tests = [t for t in gf.live_nodes() if t.kind == 'test' and 'self._sock' in U(t.ast)]
+    starts = []
+    for t in tests:
+        for lab in ('true', 'false'):
+            lits = cond_forms(R, gf, t, t.ast, lab == 'true') or set()
+            if ('self._sock is None', False) in lits:
+                starts += succs(t, lab)
+    need(starts, '_close_socket: test for an absent socket not found')
+    reach = gf.reachable(starts, avoid=set(clf))
+    leaks = [n for n in reach if any((m is gf.exit or m is gf.raise_exit) for (m, l) in n.succ)]
+    via = [n for n in reach if any(l.startswith('exc:') for (m, l) in n.succ) and n.calls]
+    R.ob('C13.closes', 'descriptor closed even when an earlier socket operation fails', not leaks,
+         '_close_socket() can finish without close() when `%s` raises a socket error: the handler swallows it and the '
+         'socket is forgotten open' % (via[0].text()[:60] if via else ''), func=q, node=(via[0].ast if via else None),
+         construct='_close_socket: close skipped after a failing socket operation')
     acq = [c for n in g.live_nodes() for c in n.calls if any(t.kind == 'ext' and t.name in ('lock.acquire', 'lock.release', 'lock.locked')
                                                             for t in R.types.call_targets(c, g.ctx))]
     R.ob('C13.closes', 'write lock taken only by `with`', not acq, '_close_socket uses %s' % [U(c) for c in acq], func=q,
